@@ -219,7 +219,7 @@ def headers_for(rng, want_stream=True):
 class C14(Prop):
     id = "C14"
     props = "C14_Props"
-    coq_files = ("Base", "C14_Model", "C14_Spec", "C14_Proofs", "C14_Props")
+    coq_files = ("Base", "C14_Model", "C14_Spec", "C14_Proofs", "C14_Alias", "C14_Props")
     models = ("C14_Model",)
     packages = {"tr": "internal/tracer"}
     kinds = {"c14.raw": "tr", "c14.reader": "tr", "c14.writer": "tr", "c14.props": "tr", "c14.rt": "tr", "c14.handler": "tr"}
@@ -233,14 +233,27 @@ class C14(Prop):
             "(c14.reader), tracingResponseWriter.Write/tryFinish with scripted (n, err) incl. short writes (c14.writer); the same scripts through TracingRoundTripper with a fake transport "
             "(c14.rt: response pointer, status, headers, trailers unchanged) and TracingHandler with a fake ResponseWriter (c14.handler: status, "
             "headers, trailers reach the inner writer); heap allocation around every tracer call metered against 16 MiB + 64 x bytes traced; header detection "
-            "(c14.props). Compared: event list (kind, side, index, flags, declared length, byte count, end-stream content, body-end error class) "
+            "(c14.props). Caller's memory: every slice the tracer is handed (trace, Read, Write; raw, reader, writer, rt, handler) is a window "
+            "of ONE long-lived array with spare capacity behind it; every script runs under two disciplines - 'reuse' (same window every call, "
+            "whole array scribbled over between calls) and 'accumulate' (consecutive windows, earlier data left in place) - whose results must be "
+            "identical; after every call the whole array is compared with a private image built from copies taken before the call (bytes the "
+            "application sees = bytes the inner reader produced; nothing else in its memory written). Systematic: the 5-byte prefix cut at every "
+            "position (all 16 compositions) x 6 messages x 6 contexts (zero-length neighbours, partial follower) x 3 payload arrivals, end-stream "
+            "messages cut at every position (all single cuts, all pairs with the first in the prefix) x 6 encodings x 5 flag/payload variants, every "
+            "1/2/3-cut of a body full of zero-length messages, truncation at every byte x (one chunk, byte-wise, every single cut), through every entry point. "
+            "Compared: event list (kind, side, index, flags, declared length, byte count, end-stream content, body-end error class) "
             "and the bytes/counts/errors the wrapper's caller got. non-trivial = at least one data event")
     trusted_base = ("Coq 8.16.1 kernel", "extraction (ExtrOcamlBasic only) + ocaml/driver.ml",
-                    "vlib generators/comparator, Go overlay harness (scripted inner reader / response writer, recording Collector)",
+                    "vlib generators/comparator, Go overlay harness (scripted inner reader / response writer, recording Collector, re-used caller array "
+                    "with private image)",
                     "modelled not verified: the decompressors (a Section variable in the theorems; a table of compress->plain pairs made by the "
                     "repository's compressors when the model is run), net/http plumbing around the wrappers (TracingRoundTripper/TracingHandler), "
                     "sync.Mutex / atomic.Bool (single goroutine per body)")
     assumptions = ("one goroutine reads or writes a given body at a time (the mutex is not modelled)",
+                   "value semantics: the model's tracer state holds copies of the bytes it keeps; the Go code implements that only by copying out of "
+                   "the caller's slice (io.Reader/io.Writer: p must not be retained) - made explicit in C14_Alias (caller's memory, prefix as own storage "
+                   "or window of the caller's array; copying_is_value_semantics; alias_variant_refuted) and checked on the Go side by re-used, "
+                   "scribbled-over caller buffers with spare capacity",
                    "bytes are < 256 and declared lengths < 2^32 (uint32 prefix)",
                    "flags & 0x82 != 0 marks an end-stream message on the response side whatever the protocol (as the code does: 0x02 Connect, 0x80 gRPC-Web)",
                    "a body cut exactly after a 5-byte prefix of a non-empty message yields no partial event (0 payload bytes seen): pinned, "
@@ -249,7 +262,9 @@ class C14(Prop):
                   "builder indices and the tracingReader / tracingResponseWriter wrappers produces, for all envelope sequences, all partitions of "
                   "the bytes into chunks (empty and 1-byte chunks included) and all truncation points, exactly the events a one-shot declarative "
                   "parse of the whole body gives, ends with a single body-end event, decompresses the end-stream content exactly when the "
-                  "envelope's compressed bit is set, and hands the caller exactly the inner bytes/counts/errors; the model is tied to the Go code "
+                  "envelope's compressed bit is set, and hands the caller exactly the inner bytes/counts/errors; at the level of an explicit caller memory, the copying tracer never writes to "
+                  "the caller's array and yields the same events whatever the caller does with its buffers between calls, while the variant that retains "
+                  "the caller's slice is refuted; the model is tied to the Go code "
                   "by a bounded-exhaustive plus random differential run on every check.")
     level_note = ("Trusted: Coq kernel, extraction, OCaml driver, harness; model-to-code correspondence is sampled (all compositions of bodies "
                   "<= 13/15 bytes and of their truncations), not proved. Decompressors are an oracle. The pass-through theorem is about the model's "
@@ -263,7 +278,15 @@ class C14(Prop):
         return "64617461" in res
 
     def describe(self, case, g, m):
-        return "body tracing: implementation differs from the proved model (= declarative parse of the whole body)"
+        import re
+        tags = []
+        for h in re.findall(r"\(#657272 #([0-9a-f]+)", g or ""):
+            try:
+                tags.append(bytes.fromhex(h).decode())
+            except ValueError:
+                pass
+        extra = (" [harness: %s]" % ", ".join(tags)) if tags else ""
+        return "body tracing: implementation differs from the proved model (= declarative parse of the whole body)" + extra
 
     # ------------------------------------------------------------------ generators
     def generate(self, rng, tier):
@@ -310,7 +333,7 @@ class C14(Prop):
         conn = ["application/connect+proto", "", "", ""]
 
         # 1. bounded-exhaustive: ALL compositions of every small body and of every truncation of it
-        lim = 13 if quick else 15
+        lim = 14 if quick else 15
         small = [
             (b"", []),
             (envelope(0, b""), []),
@@ -336,7 +359,7 @@ class C14(Prop):
             for cutp in range(len(body) + 1):
                 t = body[:cutp]
                 full = cutp == len(body)
-                if len(t) > (10 if quick else 12) and not full:
+                if len(t) > (11 if quick else 12) and not full:
                     comps = [g.chunking(len(t)) for _ in range(60)]
                 else:
                     comps = compositions(len(t))
@@ -347,10 +370,11 @@ class C14(Prop):
                     if full or rng.random() < 0.1:
                         yield raw(not req, 1, DIDENT, "", [], chunks)
         # the same through the wrappers for a few bodies (every composition)
-        for body in (envelope(0, b"a"), envelope(2, b"{}"), envelope(0, b"") + envelope(1, b"")):
+        for body in (envelope(0, b"a"), envelope(2, b"{}"), envelope(0, b"") + envelope(1, b""), envelope(0x80, b"Z") + b"\x01\x02",
+                     envelope(0, b"abc", declared=2), envelope(1, b"") + envelope(3, b"Z")):
             for cutp in range(len(body) + 1):
                 t = body[:cutp]
-                if cutp < len(body) and len(t) > 8:
+                if cutp < len(body) and len(t) > 9:
                     continue
                 for comp in compositions(len(t)):
                     chunks = cut(t, comp)
@@ -382,8 +406,142 @@ class C14(Prop):
                 yield raw(rng.random() < 0.5, 1, DIDENT, "", [], chunks)
                 yield ["c14.reader", 0, conn, [], reader_ops(chunks, "eof")]
 
+        # 1b. systematic splits through EVERY entry point.  (The Go drivers hand the tracer windows of ONE
+        #     re-used, scribbled-over array with spare capacity - see the harness - so whatever the tracer
+        #     keeps from one call to the next must be its own copy.)
+        def finishing(ops):
+            return any(o[0] == 1 or o[2] != IONONE for o in ops)
+
+        def through_all(hdr, table, chunks, k, light=False):
+            stream, dk, enc = props_of(*hdr)
+            yield raw(k % 2, stream, dk, enc, table, chunks)
+            if not light or k % 4 == 0:
+                yield raw(1 - k % 2, stream, dk, enc, table, chunks)
+            ops = reader_ops(chunks, endings[k % len(endings)])
+            wops = writer_ops(chunks, None if k % 5 else rng.randrange(len(chunks) + 1))
+            if not light or k % 2 == 0:
+                yield ["c14.reader", k % 3 == 0, hdr, table, ops]
+            if not light or k % 2 == 1:
+                yield ["c14.writer", hdr, table, wops]
+            if k % 2 == 0:
+                if finishing(ops) and (not light or k % 4 == 0):
+                    yield ["c14.rt", 0, hdr, table, ops]
+            elif not light or k % 4 == 1:
+                yield ["c14.handler", hdr, table, wops]
+
+        gzp, gzc = gz[1]
+        gzhdr = ["application/connect+json", "", "gzip", ""]
+        gztab = [[gzc, [gzp]]]
+        long_payload = bytes((7 * i + 1) % 251 for i in range(258))
+        # (a) the 5-byte prefix cut at every position (all 16 compositions: 5, 1+4, 2+3, 3+2, 4+1, 1+1+3, ... 1+1+1+1+1)
+        #     x what precedes / follows it x how the payload arrives.  Prefix bytes pairwise different where possible.
+        split_msgs = [
+            (envelope(1, b"hello world"), conn, []),
+            (envelope(0, b""), conn, []),
+            (envelope(0x80, b"Z"), ["application/grpc-web+proto", "", "", ""], []),
+            (envelope(2, b"{}"), conn, []),
+            (envelope(3, gzc), gzhdr, gztab),
+            (envelope(0x7D, long_payload), conn, []),            # 7d 00 00 01 02
+        ]
+        contexts = [
+            (b"", b""),
+            (envelope(0, b"ab"), b""),
+            (envelope(1, b""), envelope(0, b"")),
+            (envelope(0, b"") + envelope(0, b""), envelope(0, b"xy")),
+            (b"", envelope(4, b"xyz")[:3]),
+            (envelope(0, b"q"), envelope(0, b"xyz")[:6]),
+        ]
+        k = 0
+        for msg, hdr, table in split_msgs:
+            for pre, post in contexts:
+                rest = msg[5:] + post
+                for comp in compositions(5):
+                    frags = cut(msg[:5], comp)
+                    for glue_pre in ((0, 1) if pre else (0,)):
+                        for pay in (0, 1, 2):
+                            chunks = [pre + frags[0]] if glue_pre else ([pre] if pre else []) + [frags[0]]
+                            chunks += frags[1:]
+                            if pay == 0:
+                                chunks[-1] = chunks[-1] + rest          # payload glued to the last fragment
+                            elif pay == 1:
+                                if rest:
+                                    chunks.append(rest)
+                            else:
+                                h = (len(rest) + 1) // 2
+                                chunks += [c_ for c_ in (rest[:h], b"", rest[h:]) if c_ or rng.random() < 0.3]
+                            k += 1
+                            yield from through_all(hdr, table, chunks, k)
+        # (b) an end-stream message cut at every position (every single cut through every entry point; every
+        #     pair of cuts whose first lies in or at the ends of its prefix), each negotiated encoding
+        for enc in NAMED + [""]:
+            if enc:
+                plain, comp_ = FIXTURES[enc][3]
+                table = [[comp_, [plain]]]
+            else:
+                plain, comp_, table = PLAINS[3], PLAINS[3], []
+            for flags, payload in ((3, comp_), (2, b"{}"), (0x81, comp_), (0x80, plain), (2, comp_)):
+                if flags & 0x80:
+                    hdr = ["application/grpc-web+proto", "", "", enc]
+                else:
+                    hdr = ["application/connect+json", "", enc, ""]
+                body = envelope(0, b"m") + envelope(flags, payload)
+                for i in range(len(body) + 1):
+                    k += 1
+                    chunks = [c_ for c_ in (body[:i], body[i:]) if c_]
+                    yield from through_all(hdr, table, chunks, k)
+                stream, dk, _ = props_of(*hdr)
+                for i in range(6, 12):
+                    for j in range(i + 1, len(body) + 1):
+                        k += 1
+                        chunks = [body[:i], body[i:j]] + ([body[j:]] if j < len(body) else [])
+                        yield raw(0, stream, dk, enc, table, chunks)
+                        if k % 3 == 0:
+                            yield ["c14.reader", 0, hdr, table, reader_ops(chunks, endings[k % len(endings)])]
+                        elif k % 3 == 1:
+                            yield ["c14.writer", hdr, table, writer_ops(chunks)]
+        # (c) zero-length messages next to the cuts: every 1-, 2- and 3-cut of a body full of them, an empty chunk at a cut
+        zbody = envelope(0, b"") + envelope(1, b"") + envelope(0, b"a") + envelope(0, b"") + envelope(2, b"{}") + envelope(0x80, b"")
+        nz = len(zbody)
+        for ncuts in (1, 2, 3):
+            for cuts in itertools.combinations(range(1, nz), ncuts):
+                k += 1
+                pts = [0] + list(cuts) + [nz]
+                chunks = [zbody[a:b] for a, b in zip(pts, pts[1:])]
+                if k % 4 == 0:
+                    chunks.insert(rng.randrange(len(chunks) + 1), b"")
+                if ncuts < 3:
+                    yield from through_all(conn, [], chunks, k)
+                else:
+                    yield raw(k % 2, 1, DIDENT, "", [], chunks)
+                    if k % 8 == 0:
+                        yield ["c14.reader", 0, conn, [], reader_ops(chunks, endings[k % len(endings)])]
+                    elif k % 8 == 1:
+                        yield ["c14.writer", conn, [], writer_ops(chunks)]
+        # (d) truncation at EVERY byte x (one chunk, byte by byte, every single cut, boundary-aligned)
+        trunc_bodies = [
+            (envelope(1, b"hello world") + envelope(0, b"") + envelope(2, b"{}"), conn, []),
+            (zbody, conn, []),
+            (envelope(0, b"m") + envelope(3, gzc), gzhdr, gztab),
+            (envelope(0, b"ab") + envelope(0x80, PLAINS[3]), ["application/grpc-web+proto", "", "", ""], []),
+            (envelope(0x7D, long_payload[:9]) + envelope(0, b"") + envelope(0, b"") + envelope(1, b"x"), conn, []),
+        ]
+        for body, hdr, table in trunc_bodies:
+            stream, dk, enc = props_of(*hdr)
+            for t in range(len(body) + 1):
+                tb = body[:t]
+                splits = [[tb] if tb else [], [tb[i:i + 1] for i in range(t)]]
+                splits += [[tb[:i], tb[i:]] for i in range(1, t)]
+                for chunks in splits:
+                    k += 1
+                    yield raw(k % 2, stream, dk, enc, table, chunks)
+                    ending = ("eof", "fail", "close", "eof-with-data", "close-fail", "fail-with-data")[k % 6]
+                    if k % 2:
+                        yield ["c14.reader", k % 4 == 1, hdr, table, reader_ops(chunks, ending)]
+                    else:
+                        yield ["c14.writer", hdr, table, writer_ops(chunks, None if k % 6 else rng.randrange(len(chunks) + 1))]
+
         # 2. random larger streams, random chunkings, through all entry points
-        n_rand = 30000 if quick else 500000
+        n_rand = 60000 if quick else 500000
         for _ in range(n_rand):
             r = rng.random()
             entry = "raw" if r < 0.4 else ("reader" if r < 0.75 else "writer")
@@ -418,7 +576,7 @@ class C14(Prop):
                     yield ["c14.handler", hdr, table, ops]          # through TracingHandler
 
         # 3. every truncation point of medium streams
-        for _ in range(70 if quick else 600):
+        for _ in range(150 if quick else 600):
             req = rng.random() < 0.5
             enc = rng.choice(NAMED)
             dk = rng.choice([DIDENT, DNAMED])
